@@ -82,7 +82,11 @@ def check(pm: ProgramModel, ctx: Ctx) -> None:
               "empty-str": "", "empty-list": [], "empty-map": {}, "float": 2.5, "str": "text",
               "list": [1, "a", True], "map": {"k": 1, "nested": {"x": False}}, "unicode": "añ",
               "str-true": "true", "str-False": "False", "str-number": "10", "str-null": "null", "str-float": "2.5",
-              "float-integral": 6.0, "list-of-str-bools": ["True", "false"]}
+              "float-integral": 6.0, "list-of-str-bools": ["True", "false"],
+              # numbers at the edges of what a text carries exactly: 17 significant digits, exponents, beyond 2**53
+              "float-17-digits": 0.30000000000000004, "float-third": 1 / 3, "float-next-after-one": 1.0000000000000002,
+              "float-large-exponent": 1e22, "float-small-exponent": 1.5e-07, "float-beyond-2**53": 9007199254740994.0,
+              "int-beyond-2**53": 9007199254740993, "int-20-digits": 12345678901234567890, "negative-float": -0.5}
     for vk, v in values.items():
         root = mb.feature("Root")
         a = mb.feature("A")
